@@ -124,6 +124,9 @@ struct Call {
     caps: Vec<usize>,
     extract: bool,
     pool: bool,
+    /// Total length of an input that is too large to materialise (contents
+    /// are not compared then).
+    huge: Option<usize>,
     task: Box<dyn Pollable>,
 }
 
@@ -192,8 +195,62 @@ macro_rules! recv_vectored_call {
 }
 
 #[allow(clippy::too_many_lines)]
+/// One lazily zero-filled gigabyte, mapped once per process (reading it
+/// allocates nothing).
+fn gigabyte() -> &'static [u8] {
+    static ADDR: std::sync::OnceLock<usize> = std::sync::OnceLock::new();
+    let addr = *ADDR.get_or_init(|| {
+        let p = unsafe {
+            libc::mmap(
+                std::ptr::null_mut(),
+                1 << 30,
+                libc::PROT_READ,
+                libc::MAP_PRIVATE | libc::MAP_ANONYMOUS | libc::MAP_NORESERVE,
+                -1,
+                0,
+            )
+        };
+        assert!(p != libc::MAP_FAILED, "mapping a gigabyte of zeros failed");
+        p as usize
+    });
+    // SAFETY: mapped above, never unmapped, read-only.
+    unsafe { std::slice::from_raw_parts(addr as *const u8, 1 << 30) }
+}
+
 fn make_call(w: &World, fd: usize, pool: Option<&ReadBufPool>) -> Call {
     let f = w.fd_ref(fd);
+    // Now and then: more than 4 GiB of input in buffers that each fit into
+    // 32 bits (five views of one gigabyte of zeros); the kernel takes at most
+    // 2 GiB - 4 KiB per request. Only sizes and offsets are compared.
+    if tape::chance(site::OPKIND, 1, 40) {
+        let g = gigabyte();
+        let lens = [g.len(), g.len() - tape::choose(site::BUF, 4096) as usize, g.len(), 1 + tape::choose(site::BUF, 1 << 20) as usize, g.len()];
+        let bufs: [&'static [u8]; 5] = [&g[..lens[0]], &g[..lens[1]], &g[..lens[2]], &g[..lens[3]], &g[..lens[4]]];
+        let at = if tape::choose(site::BUF, 2) == 1 { Some(u64::from(tape::choose(site::BUF, 5000))) } else { None };
+        let fut = alloc::a10(|| {
+            let w_ = f.write_all_vectored(bufs);
+            match at {
+                Some(o) => w_.at(o),
+                None => w_,
+            }
+        });
+        return Call {
+            name: format!("write_all_vectored(5 static buffers, {} bytes){}", lens.iter().sum::<usize>(), if at.is_some() { ".at" } else { "" }),
+            write: true,
+            input: Vec::new(),
+            bounds: bounds_of(&lens),
+            flags: 0,
+            opcode: OP_WRITEV,
+            base_offset: at.unwrap_or(NO_OFFSET),
+            n: 0,
+            init: Vec::new(),
+            caps: Vec::new(),
+            extract: false,
+            pool: false,
+            huge: Some(lens.iter().sum()),
+            task: task(fut, |o| io_err(o).map(|()| Val::Unit)),
+        };
+    }
     let which = tape::choose(site::OPKIND, 12);
     let at = if tape::choose(site::BUF, 2) == 1 {
         Some(u64::from(tape::choose(site::BUF, 5000)))
@@ -272,6 +329,7 @@ fn make_call(w: &World, fd: usize, pool: Option<&ReadBufPool>) -> Call {
                 caps: Vec::new(),
                 extract,
                 pool: false,
+                huge: None,
                 task: task_,
             }
         }
@@ -299,6 +357,7 @@ fn make_call(w: &World, fd: usize, pool: Option<&ReadBufPool>) -> Call {
                 caps: Vec::new(),
                 extract,
                 pool: false,
+                huge: None,
                 task: task_,
             }
         }
@@ -333,6 +392,7 @@ fn make_call(w: &World, fd: usize, pool: Option<&ReadBufPool>) -> Call {
                 caps: Vec::new(),
                 extract,
                 pool: false,
+                huge: None,
                 task: task_,
             }
         }
@@ -365,6 +425,7 @@ fn make_call(w: &World, fd: usize, pool: Option<&ReadBufPool>) -> Call {
                 caps: Vec::new(),
                 extract,
                 pool: false,
+                huge: None,
                 task: task_,
             }
         }
@@ -392,6 +453,7 @@ fn make_call(w: &World, fd: usize, pool: Option<&ReadBufPool>) -> Call {
                 caps: Vec::new(),
                 extract,
                 pool: false,
+                huge: None,
                 task: task_,
             }
         }
@@ -438,6 +500,7 @@ fn make_call(w: &World, fd: usize, pool: Option<&ReadBufPool>) -> Call {
                     caps: vec![bcap],
                     extract: false,
                     pool: true,
+                    huge: None,
                     task: task_,
                 };
             }
@@ -504,6 +567,7 @@ fn make_call(w: &World, fd: usize, pool: Option<&ReadBufPool>) -> Call {
                 caps,
                 extract: false,
                 pool: false,
+                huge: None,
                 task: task_,
             }
         }
@@ -551,6 +615,7 @@ fn make_call(w: &World, fd: usize, pool: Option<&ReadBufPool>) -> Call {
                 caps,
                 extract: false,
                 pool: false,
+                huge: None,
                 task: task_,
             }
         }
@@ -645,7 +710,8 @@ pub fn composite() {
         None
     };
     let mut call = make_call(&w, fd, pool.as_ref());
-    let total = if call.write { call.input.len() } else { call.caps.iter().sum() };
+    let input_len = call.huge.unwrap_or(call.input.len());
+    let total = if call.write { input_len } else { call.caps.iter().sum() };
     let counts = script_counts(total, &call.bounds, intr);
     ev!("h composite {} counts {:?}", call.name, counts);
     trace(&[tag::CREATE, u32::from(call.opcode), call.bounds.len() as u32, u32::from(call.base_offset != NO_OFFSET)]);
@@ -749,7 +815,7 @@ pub fn composite() {
             }
             stats::inc(C::probe_restart_taken);
         }
-        let remaining = if call.write { call.input.len() - acc } else { call.caps.iter().sum::<usize>() - acc };
+        let remaining = if call.write { input_len - acc } else { call.caps.iter().sum::<usize>() - acc };
         let selects = rec.sqe.flags() & SQE_BUFFER_SELECT != 0;
         if !selects && rec.described != remaining {
             violation(
@@ -777,7 +843,7 @@ pub fn composite() {
         }
         let n = res as usize;
         if call.write {
-            if rec.taken != call.input[acc..(acc + n).min(call.input.len())] {
+            if call.huge.is_none() && rec.taken != call.input[acc..(acc + n).min(call.input.len())] {
                 violation(
                     "io.stream-mismatch",
                     format!(
@@ -792,7 +858,7 @@ pub fn composite() {
                 continue;
             }
             acc += n;
-            if acc >= call.input.len() {
+            if acc >= input_len {
                 expected = Some(Ok(Val::Unit));
             }
         } else {
@@ -831,7 +897,7 @@ pub fn composite() {
                 if ok_early { "io.early-ok" } else { "io.wrong-error" },
                 format!(
                     "{name}: resolved with {got:?} after {acc} of {} bytes although the kernel has not finished the stream",
-                    if call.write { call.input.len() } else { call.n }
+                    if call.write { input_len } else { call.n }
                 ),
             );
         }
